@@ -128,6 +128,10 @@ fn text_probes() -> Vec<String> {
     for n in [23usize, 24, 255, 256, 65535, 65536, 65537, 70000] {
         v.push("t".repeat(n));
     }
+    // JOSE / JWK spellings of operations, key types and algorithms
+    for t in ["sign", "verify", "encrypt", "decrypt", "wrapKey", "unwrapKey", "deriveKey", "deriveBits", "EC", "OKP", "RSA", "oct", "dir", "HS256", "RS256", "ES256", "ES256K", "A128KW", "A192KW", "A256KW", "A128GCM", "A192GCM", "A256GCM", "ECDH-ES", "PS256", "EdDSA", "P-256", "Ed25519", "X25519"] {
+        v.push(t.to_string());
+    }
     // invisible / white-space / combining characters at either end (a text label is kept whatever it
     // starts or ends with; a media type only refuses real White_Space there)
     for c in crate::gen::EDGE_CHARS {
@@ -162,9 +166,26 @@ fn check_label_positions_item(ctx: &mut Ctx, n: Item) {
         (Ty::Claims, m(vec![(n.clone(), Item::Null)]), "claim key"),
         (Ty::Kdf, rcbor::det(&Item::Array(vec![n.clone(), party.clone(), party.clone(), Item::Array(vec![Item::int(1), Item::Bytes(vec![])])])), "kdf alg"),
     ];
+    let mut cases = cases;
+    // the integer and the text that spells it in decimal are two labels (both orders)
+    if let Item::Int(i) = &n {
+        let t = Item::text(&i.to_string());
+        cases.push((Ty::Claims, m(vec![(n.clone(), Item::int(1)), (t.clone(), Item::int(2))]), "claim key and its decimal spelling"));
+        cases.push((Ty::Claims, m(vec![(t.clone(), Item::int(2)), (n.clone(), Item::int(1))]), "decimal spelling and the claim key"));
+        cases.push((Ty::Header, m(vec![(n.clone(), Item::int(1)), (t.clone(), Item::int(2))]), "header label and its decimal spelling"));
+        cases.push((Ty::Key, m(vec![(Item::int(1), Item::int(1)), (t, Item::int(2)), (n.clone(), Item::int(1))]), "key label and its decimal spelling"));
+    }
+    // a text key type in JOSE spelling next to operations / algorithms: each label is classified on its own
+    for kty in ["EC", "OKP", "RSA", "oct", "EC2", "Symmetric"] {
+        cases.push((Ty::Key, m(vec![(Item::int(1), Item::text(kty)), (Item::int(4), Item::Array(vec![Item::int(1), n.clone()]))]), "key op beside a text key type"));
+        cases.push((Ty::Key, m(vec![(Item::int(4), Item::Array(vec![n.clone()])), (Item::int(3), n.clone()), (Item::int(1), Item::text(kty))]), "key op and alg before a text key type"));
+    }
+    // the KDF algorithm beside every plausible key length
+    for len in [128i64, 192, 256, 384, 512, 0] {
+        cases.push((Ty::Kdf, rcbor::det(&Item::Array(vec![n.clone(), party.clone(), party.clone(), Item::Array(vec![Item::int(len), Item::Bytes(vec![])])])), "kdf alg beside a key length"));
+    }
     // claim keys with a value of every kind a typed claim could want (a text that spells a claim name
     // stays a text whatever its value looks like)
-    let mut cases = cases;
     for v in [Item::int(1000), Item::text("t"), Item::Bytes(vec![1]), Item::Float(1.5), Item::Array(vec![]), Item::Map(vec![])] {
         cases.push((Ty::Claims, m(vec![(n.clone(), v.clone())]), "claim key with a typed-looking value"));
         cases.push((Ty::Claims, m(vec![(Item::int(1), Item::text("i")), (n.clone(), v.clone()), (Item::int(4), Item::int(2000))]), "claim key between typed claims"));
